@@ -235,6 +235,16 @@ Theorem C01_mixed_plan_fnc1 : forall optimize_fn symbols modes msg use_macros cw
 Proof. intros o sy mo msg um cw s HP OK H. exact (proj2 (fnc1_plan5_roundtrip o sy mo msg um cw s (fun p E => p5b_P5 p (HP p E)) OK H)). Qed.
 Print Assumptions C01_mixed_plan_fnc1.
 
+(* the builder's default has macros switched on: for a message that is not a Macro 05/06 envelope nothing is stripped and the same holds;
+   together with C01_mixed_plan_macro this covers `use_macros = true` whatever the message looks like *)
+Theorem C01_mixed_plan_default_options : forall optimize_fn symbols modes msg cw s,
+  (forall body, msg <> MACRO05_HEAD ++ body ++ MACRO_TRAIL) -> (forall body, msg <> MACRO06_HEAD ++ body ++ MACRO_TRAIL) ->
+  (forall p, optimize_fn msg 0 symbols modes = Ok (Some p) -> p5b p = true) -> bytes_ok msg = true ->
+  encode_data_internal optimize_fn msg symbols None modes true false = Ok (cw, s) ->
+  decode_data cw = Ok msg.
+Proof. intros o sy mo msg cw s N5 N6 HP OK H. exact (proj2 (plain_plan5_roundtrip_macros_on o sy mo msg cw s N5 N6 (fun p E => p5b_P5 p (HP p E)) OK H)). Qed.
+Print Assumptions C01_mixed_plan_default_options.
+
 (* the default configuration on a message of mixed kind: the optimiser's plan uses Base256, X12 and Text, passes the test, and the theorem applies *)
 Example C01_mixed_example :
   let d := [200; 201; 202; 203; 204; 205; 206; 207; 65; 66; 67; 68; 69; 70; 71; 72; 73; 74; 75; 76; 32; 65; 66; 67; 97; 98; 99; 100; 101; 102; 103; 104; 105; 106; 107; 108; 109; 110; 111; 33; 34] in
